@@ -345,6 +345,8 @@ def correspondence(ctx):
   fc = func_corr.run(["solver._eval_pt", "solver._eval_cost", "solver._eval_pt_direct", "solver._eval_frictionloss_pt"], ncases=96 if ctx.thorough else 32, seed=ctx.seed)
   acc = _run(ctx, 50 if ctx.thorough else 10)
   _sweep(ctx, acc, 36 if ctx.thorough else 2 * len(SIZE_CLASSES))
+  from harness.props import _c06_probe_incnan
+  _c06_probe_incnan.run(acc)   # recorded finding C06-incremental-hessian-nan, reported when observed
   return result(acc, RULE, fc=fc)
 
 
